@@ -201,6 +201,27 @@ func badLiteralsFor(kind string) []badLiteral {
 // (so that a value that merely wraps around modulo 2^8, 2^16, ... lands on an innocent-looking one),
 // spelled in a random base.
 func dynamicBadLiteral(t *rapid.T, sp *rapidSpeller, kind string) (badLiteral, bool) {
+	if kind != model.L && rapid.IntRange(0, 3).Draw(t, "malformedBase") == 3 {
+		// a prefixed number holding a digit that its base does not have (or no digit at all): not a number of any type
+		pre := rapid.SampledFrom([]string{"0b", "0B", "0o", "0O"}).Draw(t, "prefix")
+		good, bad := "01", "23456789"
+		if pre[1] == 'o' || pre[1] == 'O' {
+			good, bad = "01234567", "89"
+		}
+		if rapid.IntRange(0, 7).Draw(t, "barePrefix") == 7 {
+			pre = rapid.SampledFrom([]string{"0b", "0B", "0o", "0O", "0x", "0X"}).Draw(t, "bare")
+			return badLiteral{Text: pre, Why: "a base prefix without digits"}, true
+		}
+		text := pre
+		for i := rapid.IntRange(0, 6).Draw(t, "goodDigits"); i > 0; i-- {
+			text += string(good[rapid.IntRange(0, len(good)-1).Draw(t, "gd")])
+		}
+		text += string(bad[rapid.IntRange(0, len(bad)-1).Draw(t, "bd")])
+		for i := rapid.IntRange(0, 3).Draw(t, "moreDigits"); i > 0; i-- {
+			text += string("0123456789"[rapid.IntRange(0, 9).Draw(t, "md")])
+		}
+		return badLiteral{Text: text, Why: "a digit that the base of the literal does not have"}, true
+	}
 	var hi uint64
 	switch {
 	case kind == model.A:
